@@ -112,7 +112,7 @@ def reals(d):
         ip = draw(st.sampled_from(["0", "1", "12", "007", "123456", "9"]))
         fp = draw(st.sampled_from(["0", "5", "25", "000", "123456789", "50"]))
         e = draw(st.sampled_from(["e", "E"])) + draw(st.sampled_from(["", "+", "-"])) \
-            + draw(st.sampled_from(["0", "1", "5", "05", "10", "30"]))
+            + draw(st.sampled_from(["0", "1", "5", "05", "10", "30", "30", "400", "999"]))
         body = {"d.d": f"{ip}.{fp}", "d.": f"{ip}.", ".d": f".{fp}",
                 "d.de": f"{ip}.{fp}{e}", "de": f"{ip}{e}", ".de": f".{fp}{e}",
                 "d.e": f"{ip}.{e}"}[form]
@@ -165,14 +165,18 @@ def quoted_strings(d):
     pool = ["", " ", "a b", "  two  spaces  ", "line1\nline2", "cr\r\nlf",
             "tab\there", "/* not a comment */", "# not a comment", "a = b",
             "(1, 2)", "{x}", "<m>", "END", "end_group", "NULL", "123", "1.5",
-            "2001-01-01", "semi;colon", "it's", 'say "hi"', "dash-\n   cont",
-            "a - b", "trailing-", "x" * 90, "&", "+", "a\x0bb", "a\x0cb",
+            "2001-01-01", "semi;colon", "it's", 'say "hi"', "dash-\n   cont", "dash-\r\n   cont", "a-\n\n b", "x-\r\ny",
+            "pre-\r\n\r\n  post", "a - b", "trailing-", "x" * 90, "&", "+", "a\x0bb", "a\x0cb",
             "-\n", "END\n", "=", ","]
     pool = [s for s in pool if all(c in cs for c in s)]
     dashy = st.lists(st.sampled_from(["pre-", "post-", "-", "2-", "alpha", "beta", "x-",
                                       "long-word-", "N/A", "end-", "a", "xxxxxxxxxxxx-",
                                       "--", "-x"]),
-                     min_size=3, max_size=22).map(" ".join)
+                     min_size=3, max_size=22)
+    seps = st.lists(st.sampled_from([" ", " ", " ", "  ", "\t", " \t", "   "]),
+                    min_size=22, max_size=22)
+    dashy = st.tuples(dashy, seps).map(
+        lambda t: "".join(w + s for w, s in zip(t[0], t[1])).rstrip(" \t"))
     content = st.one_of(st.sampled_from(pool), st.text(alphabet=cs, max_size=15),
                         st.text(alphabet="ab \n\t-#/*=;'\"", max_size=10), dashy)
 
@@ -217,8 +221,9 @@ def temporals(d):
             draw(st.integers(0, 59))
         tform = draw(st.sampled_from(["hm", "hms", "hmsf"]))
         frac = draw(st.sampled_from(["5", "25", "123", "000", "100"]))
-        if d in ODL_FAMILY and d != "PDS3":
-            z = draw(st.sampled_from(["", "Z", "+07", "-5", "+05:30", "-12", "+0"]))
+        if d in ("ODL", "ISISv", "default"):
+            z = draw(st.sampled_from(["", "Z", "+07", "-5", "+05:30", "-12", "+0",
+                                      "-03:30", "-00:45", "-09:30", "+12:45", "-0:30"]))
         else:
             z = draw(st.sampled_from(["", "Z"]))
         us = 0
@@ -385,7 +390,8 @@ def values(d):
 def param_names(d):
     ident = identifiers().filter(not_reserved)
     opts = [ident, ident, ident.map(lambda s: "^" + s),
-            st.tuples(ident, ident).map(lambda t: t[0] + ":" + t[1])]
+            st.tuples(ident, ident).map(lambda t: t[0] + ":" + t[1]),
+            st.sampled_from(["a", "A", "k", "K", "Key", "KEY"])]
     if d not in ODL_FAMILY:
         opts.append(st.sampled_from(["a.b", "x/y", "long-name", "$v", "k@1"]))
     return st.one_of(*opts)
